@@ -46,6 +46,9 @@ package ring
 //@              same(r.shuffledSubringWithLookbackCache[k].subring, subring) &&
 //@              r.shuffledSubringWithLookbackCache[k].validForLookbackWindowsStartingAfter == unix(mktime(ns(now) - lookbackPeriod)) &&
 //@              windowStable(subring.ringDesc.Ingesters, r.shuffledSubringWithLookbackCache[k].validForLookbackWindowsStartingAfter, r.shuffledSubringWithLookbackCache[k].validForLookbackWindowsStartingBefore)
+//@   # ... and only when the ring's topology is still the one the shard was computed from (the computation ran without the lock)
+//@   ensures  current: (exists k subringCacheKey :: in(k, r.shuffledSubringWithLookbackCache) && (!in(k, old(r).shuffledSubringWithLookbackCache) || !same(r.shuffledSubringWithLookbackCache[k], old(r).shuffledSubringWithLookbackCache[k]))) ==>
+//@              subring != nil && ns(r.lastTopologyChange) == ns(subring.lastTopologyChange)
 //@   ensures  others: forall k subringCacheKey :: !(k.identifier == identifier && k.shardSize == size && k.lookbackPeriod == lookbackPeriod) ==>
 //@              (in(k, r.shuffledSubringWithLookbackCache) <==> in(k, old(r).shuffledSubringWithLookbackCache)) && (in(k, r.shuffledSubringWithLookbackCache) ==> same(r.shuffledSubringWithLookbackCache[k], old(r).shuffledSubringWithLookbackCache[k]))
 //@   loop 0 invariant lo == lookbackWindowStart && subring != nil && subring.ringDesc != nil
@@ -75,6 +78,15 @@ package ring
 //@   loop 0 invariant forall n string :: in(n, cached.ringDesc.Ingesters) <==> in(n, $coll)
 //@   loop 0 invariant forall n string :: $visited[n] ==> refreshedFrom(cached.ringDesc.Ingesters[n], get(r.ringDesc.Ingesters, n))
 
+//@ # the plain shard cache: an entry is stored only under the call's key, holds the call's shard, and is stored only when the
+//@ # ring's topology is still the one the shard was computed from; every other entry is untouched
+//@ func Ring.setCachedShuffledSubring
+//@   property C13
+//@   ensures  stored: forall k subringCacheKey :: in(k, r.shuffledSubringCache) && (!in(k, old(r).shuffledSubringCache) || !same(r.shuffledSubringCache[k], old(r).shuffledSubringCache[k])) ==>
+//@              k.identifier == identifier && k.shardSize == size && k.lookbackPeriod == 0 && subring != nil && same(r.shuffledSubringCache[k], subring) &&
+//@              !r.cfg.SubringCacheDisabled && ns(r.lastTopologyChange) == ns(subring.lastTopologyChange)
+//@   ensures  others: forall k subringCacheKey :: in(k, old(r).shuffledSubringCache) ==> in(k, r.shuffledSubringCache)
+//@
 //@ # ---- C13: whichever way a new descriptor is installed (full re-index or the shortcut for state-only changes), what the
 //@ # client holds afterwards is the received descriptor, normalised the same way: no instance of an excluded zone, and
 //@ # every entry carrying its map key as Id (older lifecyclers do not write it; lookups hand the entry out as it is)
